@@ -23,8 +23,10 @@ _LETROWS = [("MCQueryGen_letrows.cfg", None, {"cap": {"quick": 320, "thorough": 
 
 
 def _ALL(t, n):
-    "random deep derivations over the union of the features (simulation, the run's seed)"
-    return [("MCQueryGen_all.cfg", {"num": 2500 if t == "quick" else 6000}, {"fnmd": True, "fixedseed": 0, "cap": {"quick": n, "thorough": 3 * n}})]
+    """random deep derivations over the union of the features (simulation); the simulation seeds are FIXED - their alarms
+    were triaged (DESIGN 13.2): one seed in the quick tier, five in the thorough tier"""
+    seeds = (0,) if t == "quick" else (0, 1, 2, 3, 4)
+    return [("MCQueryGen_all.cfg", {"num": 2500}, {"fnmd": True, "fixedseed": sd, "cap": {"quick": n, "thorough": n}}) for sd in seeds]
 
 
 def _NONNULL(cfg):
